@@ -616,7 +616,7 @@ func newBuilder(seed uint32, mkdirs []string, keep bool) *builder {
 
 // (the last two: a "*" in the DIRECTORY is an ordinary character; hidden relative directories)
 var c18Dirs = []string{"", ".", "/", "/d", "/d/", "/d/../d", "/d//sub/.", "d", "../up", "/new/deep/dir", "/w/build*", "/w/a*b/c", ".cache", ".hid/sub"}
-var c18Patterns = []string{"", "x", "x*", "*y", "x*y", "a*b*c", "*", "**", "x.y*.txt", "sp ace *", ".", "..", "..*", "x*..", "../esc*", "a/b", "/abs*", "x*/y", "x*y/", "*/", ".draft-*.txt", ".hidden", "..x*"}
+var c18Patterns = []string{"", "50%-*.txt", "a%20b-*", "q%s-", "%d*%v", "%", "x", "x*", "*y", "x*y", "a*b*c", "*", "**", "x.y*.txt", "sp ace *", ".", "..", "..*", "x*..", "../esc*", "a/b", "/abs*", "x*/y", "x*y/", "*/", ".draft-*.txt", ".hidden", "..x*"}
 
 // lcgPreimageOfZero: the state from which the next step yields 0 (so the call after reseeds).
 func lcgPreimageOfZero() uint32 {
@@ -650,6 +650,13 @@ func c18Corpus() []corr.Case {
 	b.add(tcall{kind: "f", dir: "/d", pat: "z*"}, 0)
 	b.body = append(b.body, "tempfile "+c18H("/d")+" "+c18H("z*"), "setrand 99", "tempdir "+c18H("/d")+" "+c18H("z"))
 	cases = append(cases, b.build(z))
+	// the requested directory was removed with an ancestor after it had been used: MemMapFs makes it again, with its ancestors
+	for _, k := range []string{"tempfile", "tempdir"} {
+		cases = append(cases, corr.Case{Lines: []string{"case " + c18H(c18Tmp), "setrand 7", "mkdirall " + c18H("/scratch/job/parts") + " 493",
+			k + " " + c18H("/scratch/job/parts") + " " + c18H("p*"), "removeall " + c18H("/scratch"), k + " " + c18H("/scratch/job/parts") + " " + c18H("q*"),
+			"stat " + c18H("/scratch/job/parts"), "stat " + c18H("/scratch/job"), "snapshot",
+			"removeall " + c18H("/scratch/job"), k + " " + c18H("/scratch/job/parts/deeper") + " " + c18H("r*"), "stat " + c18H("/scratch/job/parts/deeper"), "snapshot"}})
+	}
 	// S14: exclusive create must be atomic — callers that all draw the same candidates
 	for _, k := range []string{"f", "d"} {
 		l := []string{"case " + c18H(c18Tmp), "mkdirall " + c18H("/d") + " 493", fmt.Sprintf("conc 8 5 same %s 7 %s %s", k, c18H("/d"), c18H("t*"))}
